@@ -32,7 +32,7 @@
 EXTENDS Naturals, TLC, Json
 OSes == {"windows", "linux", "android", "mac", "ios", "other"}
 CPUs == {"x86", "amd64", "arm64", "arm", "ppc"}
-WinCodes == {"av", "inpage", "fastfail", "general", "oom", "cpp", "simulated", "ntstatus", "winerror", "facility", "wfacunk", "wunknown"}
+WinCodes == {"av", "inpage", "fastfail", "general", "oom", "cpp", "simulated", "ntstatus", "winerror", "facility", "facility_lowsev", "wfacunk", "wunknown"}
 LinuxRefinable == {"SIGILL", "SIGTRAP", "SIGFPE", "SIGSEGV", "SIGBUS", "SIGSYS"}
 LinuxCodes == LinuxRefinable \cup {"SIGABRT", "SIGUSR1", "lunknown"}
 MacCpuRefined == {"EXC_BAD_INSTRUCTION", "EXC_ARITHMETIC", "EXC_BREAKPOINT"}
@@ -71,7 +71,7 @@ WinReason ==
     [] code = "simulated" -> [shape |-> "name", name |-> "Simulated Exception"]
     [] code = "ntstatus" -> [shape |-> "name", name |-> "STATUS_HEAP_CORRUPTION"]
     [] code = "winerror" -> [shape |-> "name", name |-> "ERROR_FILE_NOT_FOUND"]
-    [] code = "facility" -> [shape |-> "name", name |-> "FACILITY_VISUALCPP / ERROR_MOD_NOT_FOUND"]
+    [] code \in {"facility", "facility_lowsev"} -> [shape |-> "name", name |-> "FACILITY_VISUALCPP / ERROR_MOD_NOT_FOUND"]      \* any non-zero severity nibble
     [] OTHER -> [shape |-> "win_unknown"]
 \* ---- Linux ----
 LinuxReason ==
